@@ -113,11 +113,12 @@ def namespace(env, kernel_ns):
         reverse=lambda d: Dev(env, d.kernel, d.xt, d.yt, not d.rev),
         parallel=lambda: env.block("parallel"), auto=lambda: env.block("auto"))
     gate = pytypes.SimpleNamespace(
-        top_hat_cz=lambda z, upper_buffer=3.0, lower_buffer=3.0: env.emit(("cz", z, upper_buffer, lower_buffer), "cz"),
-        local_r=lambda a, r, z: env.emit(("local_r", _f(a), _f(r), z), "local_r"),
-        local_rz=lambda r, z: env.emit(("local_rz", _f(r), z), "local_rz"),
-        global_r=lambda a, r: env.emit(("global_r", _f(a), _f(r)), "global_r"),
-        global_rz=lambda r: env.emit(("global_rz", _f(r)), "global_rz"))
+        top_hat_cz=lambda zone, upper_buffer=3.0, lower_buffer=3.0: env.emit(("cz", zone, upper_buffer, lower_buffer), "cz"),
+        # (parameter names as documented in dialects/gate/_interface.py, so that keyword calls evaluate natively)
+        local_r=lambda axis_angle, rotation_angle, zone: env.emit(("local_r", _f(axis_angle), _f(rotation_angle), zone), "local_r"),
+        local_rz=lambda rotation_angle, zone: env.emit(("local_rz", _f(rotation_angle), zone), "local_rz"),
+        global_r=lambda axis_angle, rotation_angle: env.emit(("global_r", _f(axis_angle), _f(rotation_angle)), "global_r"),
+        global_rz=lambda rotation_angle: env.emit(("global_rz", _f(rotation_angle)), "global_rz"))
     init = pytypes.SimpleNamespace(fill=lambda zs: env.emit(("fill", list(zs)), "fill"))
     measure = pytypes.SimpleNamespace(measure=lambda zs: env.emit(("measure", list(zs)), "measure") or tuple(object() for _ in zs))
     spec = pytypes.SimpleNamespace(
